@@ -286,7 +286,7 @@ def parse_items(toks, lo, hi, container=""):
                 end += 1
             items.append(Item("macro", toks[i + 2].text, start, end, container=container))
             i = end
-        elif kw in ("use", "type", "static", "extern", "assume_specification", "group", "let") or (mods and kw not in ("fn",)):
+        elif kw in ("use", "type", "static", "const", "extern", "assume_specification", "group", "let") or (mods and kw not in ("fn",)):
             # ends at `;` or at a brace block (broadcast group / use)
             j = i
             end = None
